@@ -324,12 +324,17 @@ impl<R: Rng> GraphState<R> {
             let (v, totalw) =
                 self.edges
                     .iter()
-                    .map(|(_, w)| *w)
+                    .map(|(_, w)| w.abs())
                     .fold((v, 0.), |(mut accv, accw), w| {
                         accv.push(accw + w);
                         (accv, accw + w)
                     });
-            Some((v, totalw))
+            // Without any coupling strength there is nothing to weigh by: sample uniformly.
+            if totalw > 0. {
+                Some((v, totalw))
+            } else {
+                None
+            }
         } else {
             None
         }
